@@ -245,6 +245,7 @@ class World:
         self.drops = {(int(l), int(n)) for l, n in (net.get('drops') or [])}
         self.ties = net.get('ties') or [0]
         self.flush_on_reconnect = net.get('flush', True)
+        self.sub_hwm = net.get('sub_hwm')         # optional bound on a SUB socket's queue (messages); beyond it a publish is dropped, as PUB/SUB does at its high-water marks
         self.keyed = bool(net.get('keyed'))   # delay/connect tables chosen by (client, server, type) instead of creation order: stable when actors are added/removed
         self.delay_ctr = {}
         self.link_keys = {}
@@ -397,6 +398,9 @@ class World:
                 if link.dst.closed or link.dst.actor.dead or not link.dst_kept:
                     continue
                 dst = link.dst
+                if self.sub_hwm and dst.typ == SUB and len(dst.inq) >= self.sub_hwm:
+                    self.log.append(('hwm_drop', self.now, link.src.actor.name, dst.actor.name))
+                    continue
                 dst.inq.append(msg)
                 if b'"mid":-2' in (msg[1] if link.src.typ == PUB else msg[0]):
                     self.log.append(('oob_delivered', self.now, link.src.actor.name, link.src.actor.inc, dst.actor.name, dst.actor.inc, msg))
